@@ -31,6 +31,7 @@ pub struct OpStat {
     pub violations: u64,
     pub sample: Option<String>,
     pub counters: BTreeMap<String, u64>,
+    pub ratios: BTreeMap<String, f64>,
 }
 
 pub struct OpCtx {
@@ -60,6 +61,20 @@ impl OpCtx {
     pub fn ratio(&mut self, r: f64) {
         if r > self.st.max_ratio {
             self.st.max_ratio = r;
+        }
+    }
+    /// per-quantity maximum of error/bound (calibration evidence)
+    pub fn ratio_t(&mut self, tag: &str, r: f64) {
+        self.ratio(r);
+        match self.st.ratios.get_mut(tag) {
+            Some(x) => {
+                if r > *x {
+                    *x = r;
+                }
+            }
+            None => {
+                self.st.ratios.insert(tag.to_string(), r);
+            }
         }
     }
     #[inline]
@@ -206,6 +221,12 @@ impl Monitor {
         for (k, v) in ctx.st.counters {
             *e.counters.entry(k).or_insert(0) += v;
         }
+        for (k, v) in ctx.st.ratios {
+            let x = e.ratios.entry(k).or_insert(0.0);
+            if v > *x {
+                *x = v;
+            }
+        }
         self.violations.extend(ctx.viols);
     }
     pub fn total_violations(&self) -> u64 {
@@ -274,6 +295,18 @@ impl Monitor {
                     }
                     f2 = false;
                     let _ = write!(o, "{}:{}", js(ck), cv);
+                }
+                o.push('}');
+            }
+            if !s.ratios.is_empty() {
+                o.push_str(",\"ratios\":{");
+                let mut f2 = true;
+                for (ck, cv) in &s.ratios {
+                    if !f2 {
+                        o.push(',');
+                    }
+                    f2 = false;
+                    let _ = write!(o, "{}:{}", js(ck), jf(*cv));
                 }
                 o.push('}');
             }
